@@ -20,6 +20,25 @@ Require Import Verif.Model.Base Verif.Model.Level Verif.Model.Mode Verif.Model.A
 Require Import Verif.Proofs.PrintCtxP.
 Require Import Verif.Gen.PrintCtxFields.
 Require Import Verif.Corr.C01.
+Require Import Verif.Model.GoSem Verif.Model.PcRef.
+Require Verif.Gen.Context Verif.Proofs.GenPcP.
+
+(* ---- the source against the model, VALUE by value: PrintCtx.setentry and PrintCtx.set as they are in /repo
+   now (translated in full on every run, Gen/Context.v: all 24 fields of the context are binders and are handed
+   back; the buffer is (visible part, spare capacity [sp]); an *Entry is read through the seven fields setentry
+   looks at) compute exactly the model's pc_setentry / pc_set, for EVERY previous context [pc] (whatever an
+   earlier record left in the pooled object), every logger configuration [e] and every call [c].  [with_fields]
+   applies a function of all fields to a context, [tuple_of] lists the fields of a context. ---- *)
+Theorem C09_gen_pc_setentry : forall pc sp e flags,
+  econf_args (with_fields Context.pc_setentry_full pc sp) e flags = Some (tuple_of (pc_setentry pc e) (pf_buf pc ++ sp)).
+Proof. exact GenPcP.gen_pc_setentry. Qed.
+Print Assumptions C09_gen_pc_setentry.
+
+Theorem C09_gen_pc_set : forall pc sp e c flags ent,
+  econf_args (with_fields Context.pc_set_full pc sp) e flags ent (cl_lvl c) (cl_now c) (cl_frame c) (cl_msg c) (cl_kvps c) =
+  Some (tuple_of (pc_set pc e c) (pf_buf pc ++ sp)).
+Proof. exact GenPcP.gen_pc_set. Qed.
+Print Assumptions C09_gen_pc_set.
 
 (* The bytes do not depend on the context the pool hands out: every field the encoder reads is
    written by set, or by the encoder itself before it is read.  For ANY two contexts (any
